@@ -19,6 +19,7 @@ def cases(rng, tier):
     ps = pktgen.packets(rng, n) + pktgen.big_packets(rng, 6 if tier == "quick" else 40)
     ps += pktgen.straddle_packets(rng, range(0, 26) if tier == "quick" else range(0, 80))
     ps += pktgen.chain_packets(rng)
+    ps += pktgen.huge_packets(rng, (0, 40, 16384))
     if tier == "thorough":
         ps += pktgen.big_packets(rng, 6, target=60000)
     for p in ps:
